@@ -234,7 +234,7 @@ CRASH_ASSUME = COMMON_ASSUME + [
     "every write of a recorded history carries two marker keys (first and last update of its batch) from which the surviving batch set is read",
 ]
 
-CRASH_RULE_COMMON = ("cases = rapidcheck-generated write histories (sync/non-sync puts, deletes, batches, flush, per-level compaction, reopen) recorded at "
+CRASH_RULE_COMMON = ("cases = rapidcheck-generated write histories (sync/non-sync puts, deletes, batches, flush, per-level compaction, reopen, and blocks in which 2-3 client threads write concurrently so that group commit is in the trace) recorded at "
                      "system-call granularity on the deterministic scheduler; evaluations = (history, crash point, crash image) triples materialised and "
                      "reopened by the real code; images per crash point: minimal, maximal, directory-ahead, data-ahead, torn last write, sampled; ")
 CRASH_RULES = {
